@@ -602,7 +602,7 @@ theorem addQuestionBody_spec (qn : WName) (qt qc : Nat) (s : State) (hw : WInv s
     | panic => exact absurd rfl hs.nopanic
     | err e => exact ⟨by simp, fun h => by cases h⟩
     | ok p =>
-      obtain ⟨hw2, hden, hq, ho, hr, _⟩ := hs.ok p rfl
+      obtain ⟨hw2, hden, hq, ho, hr, _, _⟩ := hs.ok p rfl
       simp only []
       have hqd : s2.qdcount = s.qdcount := hf.qd
       -- the state after the QNAME anchor is (possibly) set
